@@ -368,8 +368,16 @@ Proof.
       apply sum_small; try lia; try (destruct sg; cbn [sgnz]; lia). }
   destruct (ebt_base t) eqn:Eb; try (exfalso; apply Hnz; reflexivity); cbn [rbind fst snd].
   - (* EBUlp *) specialize (Common 1 0 ltac:(lia) ltac:(lia)).
-    replace (ex + dg - p - 0 - d) with (ex + dg - p - d) in Common by lia. exact Common.
-  - (* EBHalfUlp *) specialize (Common (fst (eb_half_of md B)) (snd (eb_half_of md B)) ltac:(lia) ltac:(lia)). exact Common.
+    replace (ex + dg - p - 0 - d) with (ex + dg - p - d) in Common by lia.
+    (* the exponent of the regenerated body may be associated differently (e.g. ex + (dg - p) - d since the source forms
+       digits - precision as one term): bring it to the form of [Common] whatever its shape *)
+    match goal with |- exists tv : fbig, Ok (_, ?e, _) = Ok tv /\ _ =>
+      replace e with (ex + dg - p - d) by lia end.
+    exact Common.
+  - (* EBHalfUlp *) specialize (Common (fst (eb_half_of md B)) (snd (eb_half_of md B)) ltac:(lia) ltac:(lia)).
+    match goal with |- exists tv : fbig, Ok (_, ?e, _) = Ok tv /\ _ =>
+      replace e with (ex + dg - p - snd (eb_half_of md B) - d) by lia end.
+    exact Common.
   - (* EBTowardsZero cannot be a base *) exfalso. exact (ebt_base_not_tz t _ Eb).
 Qed.
 End Float.
